@@ -519,3 +519,19 @@ def prefix_forall(ip, name: str, args: list, bound, pred_fn):
                 p.assume(z3.Implies(z3.And(inr, pt), pk))          # lean: forall_prefix_elim
         s.pointwise.append(pw)
     return pt
+
+
+def any_hook(ip, S, node=None):
+    """any(<bool element> for k < n) over a symbolic-length sequence: an exists-prefix fold."""
+    from pyvc.values import SBool
+    n = ip.models.len_term(S.n)
+    cnt = ip.path.ghost.setdefault("any_counter", [0])
+    cnt[0] += 1
+    name = f"ANYOF_{getattr(node, 'lineno', 0)}_{cnt[0]}"
+
+    def pred(k):
+        v = ip.as_bool_term(S.get(k))
+        return z3.BoolVal(v) if isinstance(v, bool) else v
+    P = named_exists(ip, name, [], n, pred)
+    saturate(ip)
+    return SBool(P(n))
